@@ -205,6 +205,64 @@ def replay_recon(c, cases, tag="recon"):
     return summ[0], lines
 
 
+# ------------------------------------------------------------------------------------------------ (c1) the frame layer
+def run_frames(c):
+    """Frame.tla: flag byte, snappy preamble, declared-size bound; every enumerated case on the real compress::decompress and on
+    the decoder of LengthDelimitedCodecWithCompress; sender side round trips."""
+    res = V.tlc(PID, "MC_Frame", "MC_Frame.cfg", workers=1, timeout=300, coverage=False)
+    if res["violated"]:
+        c.violation("model/frame/" + res["violated"], "Frame.tla violates %s" % res["violated"],
+                    {"kind": "model", "module": "MC_Frame", "cfg": "MC_Frame.cfg", "tlc_tail": res["out"][-2000:]})
+        return {}
+    c.add_tlc(res, "MC_Frame.cfg")
+    r2 = V.tlc(PID, "MC_Frame", "MC_Frame_vac.cfg", workers=1, timeout=300, coverage=False)
+    if r2["violated"] != "NoOkAtBound":
+        raise V.ToolError("vacuous frame model: no frame at exactly the declared-size bound is accepted")
+    docs = V.tlc_json_lines(res["out"], "FRAMES")
+    if len(docs) != 1:
+        raise V.ToolError("MC_Frame did not export its cases")
+    path = os.path.join(V.workdir(PID), "frames.json")
+    json.dump(docs[0], open(path, "w"))
+    rc, out = V.ckbv("g_frame", ["cases", "--in", path], timeout=900)
+    lines = V.parse_ndjson(out)
+    summ = [x["summary"] for x in lines if "summary" in x]
+    if rc != 0 or not summ or summ[0]["cases"] != len(docs[0]["snappy"]) + len(docs[0]["raw"]):
+        V.log(out[-3000:])
+        raise V.ToolError("g_frame cases failed rc=%d" % rc)
+    tally = {}
+    for x in lines:
+        if "case" in x:
+            k = x["case"]
+            for who in ("decompress", "codec"):
+                want = k["verdict"]
+                if who == "codec" and x["frame_len"] < 2:
+                    want = "err"                      # the codec refuses a frame without a body
+                got = x[who]["class"]
+                tally["%s:%s" % (who, want)] = tally.get("%s:%s" % (who, want), 0) + 1
+                c.case(["frame", who, k["flag"], k["kind"], k["n"], k["tamper"]], k["tamper"] != "none" or k["flag"] not in (0, 128))
+                if got != want:
+                    c.violation("frame/%s/%s-instead-of-%s/%s" % (who, got, want, k["tamper"] if k["kind"] == "snappy" else "raw"),
+                                "frame flag=%d %s n=%d tamper=%s (declared %s): Frame.tla says %s, %s gives %s" % (
+                                    k["flag"], k["kind"], k["n"], k["tamper"], k["declared"], want, who, x[who]),
+                                {"kind": "frame", "case": k, "observed": x})
+        elif "sender" in x:
+            s = x["sender"]
+            for who in ("compress", "codec"):
+                if who == "codec" and s["len"] == 0:
+                    continue          # the codec has no frame for an empty message (no protocol message is empty)
+                o = x[who]
+                tally["sender:" + who] = tally.get("sender:" + who, 0) + 1
+                if "flag" not in o or not o["round_trip"] or o["flag"] not in (0, 128) or \
+                        (who == "compress" and o["flag"] != s["flag"]) or (who == "codec" and s["len"] <= 1024 and o["flag"] != 0):
+                    c.violation("frame/sender/%s" % who, "message of %d bytes: %s gives %s (Frame.tla: flag %d, and the receiver gets the "
+                                "message back)" % (s["len"], who, o, s["flag"]), {"kind": "frame", "sender": s, "observed": x})
+    need = ["decompress:ok", "decompress:err", "decompress:raw", "codec:ok", "codec:err", "codec:raw", "sender:compress"]
+    if any(tally.get(k, 0) == 0 for k in need):
+        raise V.ToolError("vacuous frame replay: %s" % tally)
+    c.add("traces_validated_against_impl", summ[0]["cases"])
+    return {"cases": summ[0]["cases"], "tally": tally}
+
+
 def run(tier):
     c = V.Check(PID, LEVEL, tier)
     c.rule = ("cases = (a1) every byte string of the exhaustive small-buffer model x 27 small real types, (a2) every valid "
@@ -216,7 +274,7 @@ def run(tier):
         "string and may accept more (the property only demands that nothing accepted panics)",
         "words >= 2^24 are treated alike (larger than any buffer of the model)",
         "short-id collisions are realised as a short id that names another pooled transaction; local sources = tx-pool",
-        "arbitrary byte strings at scale and snappy decompression are outside the technique",
+        "snappy's element coding is abstract in Frame.tla (flag byte, preamble, declared-size bound and the sender's threshold are specified; bodies are real snappy streams with a replaced preamble); arbitrary byte strings at scale are outside the technique",
     ]
     import c15
     c15.molgen_check()
@@ -242,6 +300,8 @@ def run(tier):
     c.add("traces_validated_against_impl", ms["buffers"])
     for r in [x for x in recs if x["ty"] == "Ping"][:3]:
         c.sample({"ty": r["ty"], "mut": r["mut"], "buf": r["buf"], "code": r["code"]})
+    # (c1)
+    c.set("frames", run_frames(c))
     # (b)
     import c16b
     rb = c16b.run_part(c, tier)
